@@ -15,6 +15,7 @@
    [op, a, b, c, s, nk, na]:  Y a=delta | P s=child c=clock("" inherit) | S a=lat b=kind(0 num,1 None) s=tag
    nk/na nested bundle (nk 0 none,1 num,2 None) | M s=tag | T c=clock a=num b=den | E raise
    | X s=routine (pause) | Z s=routine (resume) | K a=seed s=seed name | KC c=child a=seed s=name | D (draw)
+   | W s=cond (yield from cond.wait()) | G s=cond a=1/0 (set test true first / just signal)
    main only: U a=lat b=kind s=tag c=delay: a send from a plain thread after `delay` (RT; in NRT an outside send)
               IN a=timetag time b=kind(0 timed, 1 immediate, 2 plain message) s=tag: an incoming datagram (RT)  *)
 EXTENDS Naturals, Integers, Sequences, FiniteSets, TLC, QueueOps
@@ -48,7 +49,8 @@ Init0(prog) ==
      rt |-> [r \in names |-> NoRt],
      out |-> <<>>,              \* observations in execution order
      sends |-> <<>>,            \* [time, seq, tag, subk, sub] for the NRT score
-     draws |-> [g \in {"main"} |-> 0],   \* generator -> number of values drawn so far
+     draws |-> [g \in {"main"} |-> 0],
+     cond |-> [c \in {"c1", "c2"} |-> [test |-> FALSE, waiting |-> <<>>]],   \* Condition objects   \* generator -> number of values drawn so far
      last |-> 0,                \* logical time of the last wake-up
      bad |-> "ok"]
 
@@ -94,6 +96,17 @@ SetTempo(st, lt, c, num, den) ==
     [st EXCEPT !.clk = Put(st.clk, c, [num |-> num, den |-> den, bs |-> lt, bb |-> beats]),
                !.bad = IF ~ExactS2B(m, lt) THEN "nondyadic" ELSE st.bad]
 
+RECURSIVE SignalAll(_, _, _)
+SignalAll(st, lt, ws) ==
+    IF ws = <<>> THEN st
+    ELSE LET w == ws[1]
+             c == st.rt[w].clock
+             p == IF IsId(c) THEN lt ELSE S2B(st.clk[c], lt)
+             s1 == [st EXCEPT !.q = Put(st.q, c, Insert(Without(st.q[c], w), [p |-> p, s |-> st.ctr, t |-> w])),
+                              !.ctr = st.ctr + 1,
+                              !.bad = IF ~IsId(c) /\ ~ExactS2B(st.clk[c], lt) THEN "nondyadic" ELSE st.bad]
+         IN SignalAll(s1, lt, Tail(ws))
+
 (* run routine r's body from its pc until it yields, ends or raises; p = its scheduled position *)
 RECURSIVE Exec(_, _, _, _, _, _)
 Exec(st, prog, mode, r, lt, p) ==
@@ -124,6 +137,20 @@ Exec(st, prog, mode, r, lt, p) ==
             LET g == i.s IN      \* generators are named by their seed
             Exec([adv(st) EXCEPT !.rt = Put(adv(st).rt, r, [adv(st).rt[r] EXCEPT !.gen = g]),
                                  !.draws = Put(st.draws, g, 0)], prog, mode, r, lt, p)
+      [] i.op = "W" ->      \* yield from cond.wait(): test true -> like a yield of 0; else park until signalled
+            LET c == st.cond[i.s]
+                s1 == adv(st) IN
+            IF c.test
+            THEN [s1 EXCEPT !.q = Put(s1.q, me.clock, Insert(s1.q[me.clock], [p |-> p, s |-> s1.ctr, t |-> r])),
+                            !.ctr = s1.ctr + 1]
+            ELSE [s1 EXCEPT !.cond = Put(s1.cond, i.s, [c EXCEPT !.waiting = Append(c.waiting, r)])]
+      [] i.op = "G" ->      \* (a = 1: cond.test = True;) cond.signal(): if the test holds every parked routine is
+                            \* scheduled on its own clock at the signaller's logical time, in parking order
+            LET c0 == st.cond[i.s]
+                c == IF i.a = 1 THEN [c0 EXCEPT !.test = TRUE] ELSE c0
+                s1 == [adv(st) EXCEPT !.cond = Put(st.cond, i.s, c)] IN
+            Exec(IF c.test THEN SignalAll([s1 EXCEPT !.cond = Put(s1.cond, i.s, [c EXCEPT !.waiting = <<>>])], lt, c.waiting)
+                 ELSE s1, prog, mode, r, lt, p)
       [] i.op = "KC" ->     \* create child c and give it its own seed before it plays (what Pseed does)
             LET s1 == adv(st) IN
             Exec([s1 EXCEPT !.rt = Put(s1.rt, i.c, [s1.rt[i.c] EXCEPT !.gen = i.s]), !.draws = Put(st.draws, i.s, 0)],
